@@ -772,3 +772,27 @@ Proof.
   apply isum_ext; intros j _. change s0 with 0.
   destruct (phi_opt g j) as [i'|]; destruct (j3_eqb j0 j); auto. destruct (pos_eqb i' i); auto.
 Qed.
+
+(* the pad value appears exactly where the padded coordinates of phi_pad leave the image rectangle *)
+Lemma pad_exact v g n r l : valid g -> 0 <= n < gN g -> 0 <= r < nR g -> 0 <= l < nL g ->
+  let '(_, c, hp, wp) := phi_pad g (n, r, l) in
+  (im2col_unf v g (n, r, l) = PadV <-> ~ (pH g <= hp < pH g + gH g /\ pW g <= wp < pW g + gW g)) /\
+  (im2col_unf v g (n, r, l) <> PadV -> im2col_unf v g (n, r, l) = At (n, c, hp - pH g, wp - pW g)).
+Proof.
+  intros Hv Hn Hr Hl. rewrite im2col_unf_closed by auto. rewrite phi_cases by auto. unfold phi_pad, is_real.
+  set (hp := (r / kW g) mod kH g * dH g + sH g * (l / lW g)). set (wp := r mod kW g * dW g + sW g * (l mod lW g)).
+  destruct (Z.leb_spec (pH g) hp), (Z.ltb_spec hp (pH g + gH g)), (Z.leb_spec (pW g) wp), (Z.ltb_spec wp (pW g + gW g));
+    cbn [andb]; split; try (split; [discriminate || (intros; lia) | intros; try congruence; lia]); try (intros; congruence).
+Qed.
+
+(* the fibre of a pooling window always has kH*kW entries (padding included) *)
+Lemma fibre2_length g wi wj n c : valid g -> zlen (fibre2 g wi wj n c) = kH g * kW g.
+Proof. intros Hv. pose proof (nK_pos g Hv). unfold fibre2. rewrite zlen_map, zlen_zr; lia. Qed.
+Lemma fibre2_nth g wi wj n c t : valid g ->
+  0 <= wi < lH g -> 0 <= wj < lW g -> 0 <= n < gN g -> 0 <= c < gC g -> 0 <= t < kH g * kW g ->
+  znth_error (fibre2 g wi wj n c) t = Some (phi_win g (wi, wj, n, c, t / kW g, t mod kW g)).
+Proof.
+  intros Hv Hwi Hwj Hn Hc Ht. unfold fibre2. rewrite znth_error_map, znth_error_zr by auto. cbn [option_map].
+  assert (HkWp : 0 < kW g) by (dv Hv; lia).
+  rewrite ew_closed; auto. apply div_bound; auto. apply mod_bound; auto.
+Qed.
